@@ -515,6 +515,11 @@ func min(a, b int) int {
 	return b
 }
 
+// Exotic switches on string literals that stress the printer (escapes, block strings, unicode).
+var Exotic bool
+var ExoticStrings = []string{`"tab\tnewline\nend"`, `"back\\slash"`, `"""block string"""`, `"""multi
+line block"""`, `"emoji 😀"`, `"\u00e9 escaped"`, `"slash \/ ok"`, `"# not a comment"`, `"$notAVar"`, `"{braces} [brackets]"`}
+
 // literalFor renders a GraphQL literal of the given (input) type.
 func literalFor(s *Schema, t *TypeRef, r *core.Rng, depth int) string {
 	if !t.NonNull && r.Chance(0.1) {
@@ -537,6 +542,9 @@ func literalFor(s *Schema, t *TypeRef, r *core.Rng, depth int) string {
 	case "Float":
 		return fmt.Sprintf("%d.5", r.Intn(10))
 	case "String":
+		if Exotic && r.Chance(0.5) {
+			return ExoticStrings[r.Intn(len(ExoticStrings))]
+		}
 		return []string{`"s"`, `"hello world"`, `"with \"quotes\""`, `"unicode é"`, `""`}[r.Intn(5)]
 	case "Boolean":
 		return []string{"true", "false"}[r.Intn(2)]
